@@ -519,29 +519,42 @@ Proof.
     apply Z.leb_gt in E. lia.
 Qed.
 
-Lemma sim_clone P d : good_params P -> inv P d -> sim_goal P d Clone.
+(* the copy part of clone, for any freshly made destination with the source's kind and element size *)
+Lemma clone_copy P d n0 : good_params P -> inv P d -> inv P n0 ->
+  d_kind n0 = d_kind d -> d_esize n0 = d_esize d -> d_len n0 = 0%nat ->
+  (exists dst0, d_data n0 = Some dst0) -> (exists src, d_data d = Some src) ->
+  (Z.of_nat (d_len d) <= p_limit P)%Z ->
+  exists d', match reserve P n0 (Z.of_nat (d_len d)) with
+             | ROk n1 _ =>
+                 match d_data n1, d_data d with
+                 | Some dst, Some src =>
+                     if negb (N.eqb (d_esize n1) (d_esize d)) && negb (Nat.eqb (d_len d) 0) then RCrash
+                     else match copy_cells dst src (d_len d) with
+                          | Some els => ROk {| d_kind := d_kind n1; d_esize := d_esize n1; d_len := d_len d; d_cap := d_cap n1;
+                                               d_data := Some els |} OUnit
+                          | None => RCrash
+                          end
+                 | _, _ => RCrash
+                 end
+             | r => r
+             end = ROk d' OUnit /\ abs d' = abs d /\ inv P d'.
 Proof.
-  intros GP I. unfold sim_goal. cbn [lstep step]. change (l_kind (abs d)) with (d_kind d). rewrite (abs_len _ _ I).
-  destruct (ekind_eqb (d_kind d) EStruct) eqn:Ek; cbn [orb]; [trivial|].
-  destruct (p_limit P <? Z.of_nat (d_len d))%Z eqn:El; [trivial|].
-  apply ekind_eqb_neq in Ek. apply Z.ltb_ge in El.
-  unfold clone.
-  pose proof (inv_new P (d_kind d) GP) as I0.
-  pose proof (sim_reserve P (dyn_new P (d_kind d)) (Z.of_nat (d_len d)) GP I0) as SR.
+  intros GP I I0 K0 E0 L0 [dst0 Hd0] [src Hsrc] El.
+  pose proof (sim_reserve P n0 (Z.of_nat (d_len d)) GP I0) as SR.
   unfold sim_goal in SR. cbn [lstep step] in SR.
   assert (El' : (p_limit P <? Z.of_nat (d_len d))%Z = false) by (apply Z.ltb_ge; exact El).
   rewrite El' in SR. destruct SR as (n1 & R1 & A1 & I1). rewrite R1.
-  assert (K1 : d_kind n1 = d_kind d).
-  { change (d_kind n1) with (l_kind (abs n1)). rewrite A1. unfold dyn_new. destruct (d_kind d); reflexivity. }
-  assert (E1 : d_esize n1 = d_esize d).
-  { change (d_esize n1) with (l_esize (abs n1)). rewrite A1.
-    pose proof I as (_ & _ & _ & H4 & _). rewrite (H4 Ek). unfold dyn_new. destruct (d_kind d); try reflexivity. contradiction. }
+  assert (K1 : d_kind n1 = d_kind d) by (change (d_kind n1) with (l_kind (abs n1)); rewrite A1; exact K0).
+  assert (E1 : d_esize n1 = d_esize d) by (change (d_esize n1) with (l_esize (abs n1)); rewrite A1; exact E0).
   assert (L1 : d_len n1 = 0%nat).
-  { rewrite <- (abs_len _ _ I1). rewrite A1. unfold dyn_new. destruct (d_kind d); reflexivity. }
+  { rewrite <- (abs_len _ _ I1). rewrite A1. rewrite (abs_len _ _ I0). exact L0. }
   pose proof (reserve_cap _ _ _ _ _ R1) as C1.
-  destruct (inv_data_some _ _ I1 ltac:(rewrite K1; exact Ek)) as [dst Hdst].
-  destruct (inv_data_some _ _ I Ek) as [src Hsrc].
-  rewrite Hdst, Hsrc. rewrite E1, N.eqb_refl. cbn [negb andb].
+  assert (Hdst : exists dst, d_data n1 = Some dst).
+  { unfold reserve in R1. destruct (Z.of_nat (d_len d) <=? Z.of_nat (d_cap n0))%Z.
+    - inversion R1; subst. eauto.
+    - destruct (9223372036854775807 <? Z.of_nat (d_len d) * Z.of_N (d_esize n0))%Z; [discriminate|].
+      destruct (p_limit P <? Z.of_nat (d_len d))%Z; [discriminate|]. inversion R1; subst. cbn [d_data]. eauto. }
+  destruct Hdst as [dst Hdst]. rewrite Hdst, Hsrc. rewrite E1, N.eqb_refl. cbn [negb andb].
   pose proof I1 as (G1 & G2 & G3 & G4 & G5 & G6). rewrite Hdst in G6. destruct G6 as [G6 _].
   pose proof I as (H1 & H2 & H3 & H4 & H5 & H6). rewrite Hsrc in H6. destruct H6 as [H6 H7].
   destruct (copy_cells_spec (d_len d) dst src ltac:(lia) ltac:(lia)) as (r & Er & Lr & Fr).
@@ -551,6 +564,47 @@ Proof.
   - unfold inv; cbn [d_kind d_esize d_len d_cap d_data]. rewrite K1.
     split; [lia|]. split; [lia|]. split; [exact H3|]. split; [exact H4|]. split; [exact H5|].
     split; [lia|]. rewrite Fr. exact H7.
+Qed.
+
+Lemma sim_clone P d : good_params P -> inv P d -> sim_goal P d Clone.
+Proof.
+  intros GP I. unfold sim_goal. cbn [lstep step]. change (l_kind (abs d)) with (d_kind d). rewrite (abs_len _ _ I).
+  destruct (p_limit P <? Z.of_nat (d_len d))%Z eqn:El; [rewrite orb_true_r; trivial|]. rewrite orb_false_r.
+  apply Z.ltb_ge in El.
+  destruct (ekind_eqb (d_kind d) EStruct) eqn:Ek.
+  - (* struct array: only the repaired code is inside the specification *)
+    destruct (p_clone_struct_fixed P) eqn:Fx; cbn [negb andb]; [|trivial].
+    apply ekind_eqb_eq in Ek. unfold clone. rewrite Fx. rewrite (proj2 (ekind_eqb_eq _ _) Ek). cbn [andb].
+    pose proof I as (H1 & H2 & H3 & H4 & H5 & H6).
+    destruct (d_len d) as [|n] eqn:En.
+    + (* empty source: the fresh array *)
+      cbn [Nat.eqb orb]. rewrite (items_nil _ _ I En). rewrite Ek.
+      exists (dyn_new P EStruct). split; [reflexivity|]. split; [reflexivity|apply inv_new; exact GP].
+    + destruct (d_data d) as [src|] eqn:Hsrc; [|destruct H6 as (H6 & _); discriminate].
+      cbn [Nat.eqb orb].
+      assert (Hne : l_items (abs d) <> []).
+      { intros C. pose proof (abs_len _ _ I) as HL. rewrite C, En in HL. discriminate. }
+      destruct (l_items (abs d)) eqn:Ei; [contradiction|].
+      set (n0 := {| d_kind := EStruct; d_esize := d_esize d; d_len := 0; d_cap := p_init P; d_data := Some (repeat Uninit (p_init P)) |}).
+      destruct GP as (Gi & Gg & Gl & Ge).
+      assert (I0 : inv P n0).
+      { unfold inv, n0; cbn [d_kind d_esize d_len d_cap d_data]. split; [lia|]. split; [lia|]. split; [exact H3|].
+        split; [intros C; contradiction|]. split; [intros; lia|]. split; [apply repeat_length|constructor]. }
+      assert (GP : good_params P) by (repeat split; auto; lia).
+      destruct (clone_copy P d n0 GP I I0 (eq_sym Ek) eq_refl eq_refl ltac:(eexists; reflexivity) ltac:(eexists; exact Hsrc)
+                  ltac:(rewrite En in *; exact El)) as (d' & C1 & C2 & C3).
+      rewrite Hsrc in C1. rewrite En in *. exists d'. split; [exact C1|]. split; [|exact C3].
+      exact C2.
+  - cbn [andb]. apply ekind_eqb_neq in Ek. unfold clone. rewrite (proj2 (ekind_eqb_neq _ _) Ek). rewrite andb_false_r. cbn [andb].
+    destruct (inv_data_some _ _ I Ek) as [src Hsrc].
+    pose proof I as (H1 & H2 & H3 & H4 & H5 & H6).
+    assert (D0 : exists dst0, d_data (dyn_new P (d_kind d)) = Some dst0).
+    { unfold dyn_new. destruct (d_kind d); try (eexists; reflexivity). contradiction. }
+    destruct (clone_copy P d (dyn_new P (d_kind d)) GP I (inv_new _ _ GP)
+                ltac:(unfold dyn_new; destruct (d_kind d); reflexivity)
+                ltac:(rewrite (H4 Ek); unfold dyn_new; destruct (d_kind d); try reflexivity; contradiction)
+                ltac:(unfold dyn_new; destruct (d_kind d); reflexivity) D0 ltac:(eexists; exact Hsrc) El) as (d' & C1 & C2 & C3).
+    exists d'. split; [exact C1|]. split; [exact C2|exact C3].
 Qed.
 
 (* ---------------------------------------------------------------- slice (the emitted nl_array_slice) *)
@@ -642,13 +696,25 @@ Proof.
   set (b1 := if (b <? 0)%Z then 0%Z else b).
   set (n := Z.of_nat (d_len d)).
   set (a2 := if (n <? a1)%Z then n else a1).
-  destruct (9223372036854775807 <? a2 + b1)%Z; [trivial|].
   set (e := if (n <? a2 + b1)%Z then n else (a2 + b1)%Z).
   assert (Ha1 : (0 <= a1)%Z) by (unfold a1; destruct (a <? 0)%Z eqn:E; [lia|apply Z.ltb_ge in E; lia]).
   assert (Hb1 : (0 <= b1)%Z) by (unfold b1; destruct (b <? 0)%Z eqn:E; [lia|apply Z.ltb_ge in E; lia]).
   assert (Ha2 : (0 <= a2 <= n)%Z) by (unfold a2; destruct (n <? a1)%Z eqn:E; [unfold n; lia|apply Z.ltb_ge in E; lia]).
   assert (He : (a2 <= e <= n)%Z) by (unfold e; destruct (n <? a2 + b1)%Z eqn:E; [lia|apply Z.ltb_ge in E; lia]).
   set (i0 := Z.to_nat a2). set (m := Z.to_nat (e - a2)).
+  (* both texts of nl_array_slice run the same loop: same start, same count *)
+  assert (Hloop : negb (p_slice_clamped P) && (9223372036854775807 <? a2 + b1)%Z = false ->
+            (if p_slice_clamped P
+             then slice_loop P d (dyn_new P (d_kind d)) i0 (Z.to_nat (if (n - a2 <? b1)%Z then (n - a2)%Z else b1))
+             else if (9223372036854775807 <? a2 + b1)%Z then RCrash
+                  else slice_loop P d (dyn_new P (d_kind d)) i0 m)
+            = slice_loop P d (dyn_new P (d_kind d)) i0 m).
+  { intros Hx. destruct (p_slice_clamped P); cbn [negb andb] in Hx.
+    - f_equal. unfold m, e. destruct (n - a2 <? b1)%Z eqn:A; destruct (n <? a2 + b1)%Z eqn:B;
+        try apply Z.ltb_lt in A; try apply Z.ltb_ge in A; try apply Z.ltb_lt in B; try apply Z.ltb_ge in B; lia.
+    - rewrite Hx. reflexivity. }
+  destruct (negb (p_slice_clamped P) && (9223372036854775807 <? a2 + b1)%Z) eqn:Hx; [trivial|].
+  rewrite (Hloop eq_refl). clear Hloop.
   assert (Hb : (i0 + m <= d_len d)%nat) by (unfold i0, m, n in *; lia).
   pose proof (abs_len _ _ I) as HL.
   assert (Hlen : length (firstn m (skipn i0 (l_items (abs d)))) = m) by (apply firstn_skipn_len; lia).
